@@ -50,10 +50,12 @@ VARIABLES cfg,        \* [auto: BOOLEAN, dis: BOOLEAN]  stream-level AutoPauseTi
           subs,       \* [SubIds -> [p, st, got]]  st: "" none/cancelled, "wait" open, or the terminal status
           acked,      \* ghost: set of <<p, m>> acknowledged to a publisher (current incarnation of the stream)
           refused,    \* ghost: message ids refused with a documented error
+          tail,       \* ghost: the Raft log holds a command entry behind the last snapshot
+          tainted,    \* ghost: a restart left partitions in recovery mode (known defect, see DoRestart)
           pend,       \* the publish / subscribe that is parked at a gate
           obs         \* observable result of the last call
 
-vars == <<cfg, exists, paused, ro, leading, resumeAll, lastRA, log, subs, acked, refused, pend, obs>>
+vars == <<cfg, exists, paused, ro, leading, resumeAll, lastRA, log, subs, acked, refused, tail, tainted, pend, obs>>
 
 NoSub == [p |-> -1, st |-> "", got |-> <<>>]
 NoPend == [on |-> FALSE, kind |-> "", p |-> -1, m |-> 0, s |-> "", ph |-> "", R |-> {}]
@@ -62,11 +64,12 @@ Results == {"ok", "readonly", "notfound", "timeout", "paused", "panic"}
 
 \* ---------------------------------------------------------------- state as a record
 Cur == [exists |-> exists, paused |-> paused, ro |-> ro, leading |-> leading, resumeAll |-> resumeAll,
-        lastRA |-> lastRA, log |-> log, subs |-> subs, acked |-> acked, refused |-> refused]
+        lastRA |-> lastRA, log |-> log, subs |-> subs, acked |-> acked, refused |-> refused,
+        tail |-> tail, tainted |-> tainted]
 
 Set(S) == /\ exists' = S.exists /\ paused' = S.paused /\ ro' = S.ro /\ leading' = S.leading
           /\ resumeAll' = S.resumeAll /\ lastRA' = S.lastRA /\ log' = S.log /\ subs' = S.subs
-          /\ acked' = S.acked /\ refused' = S.refused
+          /\ acked' = S.acked /\ refused' = S.refused /\ tail' = S.tail /\ tainted' = S.tainted
 
 Open(S, s) == S.subs[s].st = "wait"
 SubCount(S, p) == Cardinality({s \in SubIds : Open(S, s) /\ S.subs[s].p = p})
@@ -80,12 +83,12 @@ PausedSet(S, Q, ra) ==
   LET S1 == EndSubs(S, Q, "paused") IN
   [S1 EXCEPT !.paused = [q \in Parts |-> S.paused[q] \/ q \in Q],
              !.leading = [q \in Parts |-> S.leading[q] /\ q \notin Q],
-             !.resumeAll = ra, !.lastRA = ra]
+             !.resumeAll = ra, !.lastRA = ra, !.tail = TRUE]
 
 \* RESUME_STREAM applied (metadata.ResumePartition: replacePartition + SetLeader)
 ResumedSet(S, R) ==
   [S EXCEPT !.paused = [q \in Parts |-> S.paused[q] /\ q \notin R],
-            !.leading = [q \in Parts |-> S.leading[q] \/ (q \in R /\ S.paused[q])]]
+            !.leading = [q \in Parts |-> S.leading[q] \/ (q \in R /\ S.paused[q])], !.tail = TRUE]
 
 \* apiServer.resumeStream: which partitions the call asks to resume
 ResumeSet(S, p) == IF S.resumeAll THEN {q \in Parts : S.paused[q]} ELSE (IF S.paused[p] THEN {p} ELSE {})
@@ -164,7 +167,9 @@ SubA(S, s, p, resume) ==
 
 SubB(S, s, p) ==
   IF ~S.exists THEN [s |-> S, next |-> "done", res |-> "notfound"]
-  ELSE IF S.paused[p] THEN [s |-> S, next |-> "done", res |-> "paused"]     \* reader on a closed log
+  ELSE IF S.paused[p]      \* a reader on a closed log: refused when the log holds a segment with messages,
+       THEN IF S.log[p] # <<>> THEN [s |-> S, next |-> "done", res |-> "paused"]       \* else the loop ends at once
+            ELSE [s |-> [S EXCEPT !.subs[s] = [p |-> p, st |-> "paused", got |-> <<>>]], next |-> "done", res |-> "ok"]
   ELSE [s |-> [S EXCEPT !.subs[s] = [p |-> p, st |-> IF S.ro[p] THEN "readonly" ELSE "wait", got |-> S.log[p]]],
         next |-> "done", res |-> "ok"]
 
@@ -198,7 +203,7 @@ DoSubEnd ==
 DoUnsub(s) ==
   /\ subs[s].st # ""
   /\ subs' = [subs EXCEPT ![s] = NoSub] /\ obs' = [a |-> "Unsub", res |-> "ok"]
-  /\ UNCHANGED <<cfg, exists, paused, ro, leading, resumeAll, lastRA, log, acked, refused, pend>>
+  /\ UNCHANGED <<cfg, exists, paused, ro, leading, resumeAll, lastRA, log, acked, refused, tail, tainted, pend>>
 
 \* ---------------------------------------------------------------- metadata operations
 \* PauseStream: the API replaces an empty partition list by all partitions
@@ -216,7 +221,7 @@ ReadonlyFn(S, Q, b) ==
   IF ~S.exists THEN [s |-> S, res |-> "notfound"]
   ELSE LET QQ == IF Q = {} THEN Parts ELSE Q
            S1 == IF b THEN EndSubs(S, {q \in QQ : ~S.paused[q]}, "readonly") ELSE S IN
-       [s |-> [S1 EXCEPT !.ro = [q \in Parts |-> IF q \in QQ THEN b ELSE S.ro[q]]], res |-> "ok"]
+       [s |-> [S1 EXCEPT !.ro = [q \in Parts |-> IF q \in QQ THEN b ELSE S.ro[q]], !.tail = TRUE], res |-> "ok"]
 
 DoReadonly(Q, b) ==
   LET a == ReadonlyFn(Cur, Q, b) IN
@@ -226,7 +231,7 @@ DeleteFn(S) ==
   IF ~S.exists THEN [s |-> S, res |-> "notfound"]
   ELSE LET S1 == EndSubs(S, Parts, "deleted") IN
        [s |-> [S1 EXCEPT !.exists = FALSE, !.paused = AllF, !.ro = AllF, !.leading = AllF, !.resumeAll = FALSE,
-                         !.lastRA = FALSE, !.log = [q \in Parts |-> <<>>], !.acked = {}],
+                         !.lastRA = FALSE, !.log = [q \in Parts |-> <<>>], !.acked = {}, !.tail = TRUE],
         res |-> "ok"]
 
 DoDelete ==
@@ -236,7 +241,7 @@ DoDelete ==
 \* CreateStream with the same name (and the same stream-level configuration)
 CreateFn(S) ==
   IF S.exists THEN [s |-> S, res |-> "exists"]
-  ELSE [s |-> [S EXCEPT !.exists = TRUE, !.leading = [q \in Parts |-> TRUE]], res |-> "ok"]
+  ELSE [s |-> [S EXCEPT !.exists = TRUE, !.leading = [q \in Parts |-> TRUE], !.tail = TRUE], res |-> "ok"]
 
 DoCreate ==
   LET a == CreateFn(Cur) IN
@@ -258,9 +263,16 @@ DoIdle ==
 \* partitions, PAUSE closes them again, RESUME replaces them, SET_READONLY, DELETE tombstones); afterwards every
 \* partition that is not paused starts leading.  ResumeAll is not persisted: it comes back as the flag of the
 \* last PAUSE entry.  The driver cancels the subscriptions before the stop.
+\* Known defect (C06-no-finish-when-snapshot-covers-log): Server.Apply calls finishedRecovery at the last REPLAYED
+\* entry; when the snapshot covers the whole log nothing is replayed and the partitions that Restore added stay in
+\* recovery mode - they are not paused and not started, until they are paused and resumed or the server restarts
+\* with an entry behind the snapshot.  Modelled as the code behaves; the ghost `tainted` marks the behaviour.
 RestartFn(S, snap) ==
-  [s |-> [S EXCEPT !.leading = [q \in Parts |-> S.exists /\ ~S.paused[q]],
+  LET started == ~snap /\ S.tail IN
+  [s |-> [S EXCEPT !.leading = [q \in Parts |-> started /\ S.exists /\ ~S.paused[q]],
                    !.resumeAll = (IF snap THEN FALSE ELSE S.lastRA), !.lastRA = (IF snap THEN FALSE ELSE S.lastRA),
+                   !.tail = (~snap /\ S.tail),
+                   !.tainted = (S.tainted \/ (~started /\ S.exists /\ \E q \in Parts : ~S.paused[q])),
                    !.subs = [s \in SubIds |-> NoSub]],
    res |-> "ok"]
 
@@ -272,13 +284,13 @@ DoRestart(snap) ==
 
 \* a short time passes (less than the auto-pause time since the last activity of every partition)
 DoWait == obs' = [a |-> "Wait", res |-> "ok"]
-          /\ UNCHANGED <<cfg, exists, paused, ro, leading, resumeAll, lastRA, log, subs, acked, refused, pend>>
+          /\ UNCHANGED <<cfg, exists, paused, ro, leading, resumeAll, lastRA, log, subs, acked, refused, tail, tainted, pend>>
 
 \* ---------------------------------------------------------------- initial state
 InitWith(c) ==
   /\ cfg = c /\ exists = TRUE /\ paused = AllF /\ ro = AllF /\ leading = [q \in Parts |-> TRUE]
   /\ resumeAll = FALSE /\ lastRA = FALSE /\ log = [q \in Parts |-> <<>>]
-  /\ subs = [s \in SubIds |-> NoSub] /\ acked = {} /\ refused = {} /\ pend = NoPend
+  /\ subs = [s \in SubIds |-> NoSub] /\ acked = {} /\ refused = {} /\ tail = TRUE /\ tainted = FALSE /\ pend = NoPend
   /\ obs = [a |-> "Open", res |-> "ok"]
 
 TypeOK ==
@@ -304,6 +316,7 @@ X02_PausedQuiet == \A p \in Parts : paused[p] => ~leading[p] /\ SubCount(Cur, p)
 
 \* a partition that is neither paused nor deleted is served (no partition is left closed for ever)
 X02_ActiveServed == (~pend.on /\ exists) => \A p \in Parts : ~paused[p] => leading[p]
+X02_ActiveServedT == ~tainted => X02_ActiveServed      \* (the design model carries the known restart defect)
 
 \* a deleted stream is gone: no flags, no loops, no log, no subscription
 X02_DeletedGone == ~exists => /\ \A p \in Parts : ~paused[p] /\ ~leading[p] /\ ~ro[p] /\ log[p] = <<>>
@@ -370,8 +383,9 @@ P_Sub(s, p, resume) ==
   /\ (~resume) => paused' = paused                              \* only a Resume subscription resumes
   /\ \A q \in Parts : paused'[q] # paused[q] => paused[q] /\ (q = p \/ resumeAll)
   /\ (exists /\ (resume \/ ~paused[p])) => r = "ok" /\ ~paused'[p]
-  /\ (exists /\ ~resume /\ paused[p]) => r # "ok"
-  /\ (r = "ok") => subs'[s].got = log[p] /\ subs'[s].st = (IF ro[p] THEN "readonly" ELSE "wait")
+  \* a subscriber to a paused partition is told so: refused, or ended at once with the paused status
+  /\ (exists /\ ~resume /\ paused[p]) => (r = "paused" \/ (r = "ok" /\ subs'[s].st = "paused" /\ subs'[s].got = <<>>))
+  /\ (r = "ok" /\ ~paused'[p]) => subs'[s].got = log[p] /\ subs'[s].st = (IF ro[p] THEN "readonly" ELSE "wait")
 
 P_Restart ==
   /\ log' = log /\ paused' = paused /\ ro' = ro /\ exists' = exists     \* replay neither loses nor reopens anything
@@ -407,7 +421,9 @@ P_SubEnd ==
   LET r == obs'.res IN
   /\ log' = log /\ ro' = ro /\ exists' = exists /\ paused' = paused
   /\ r \in {"ok", "notfound", "paused"}
-  /\ (r = "ok") = (exists /\ ~paused[pend.p])
+  /\ (r = "notfound") = ~exists
+  /\ (exists /\ ~paused[pend.p]) => r = "ok" /\ subs'[pend.s].st \in {"wait", "readonly"} /\ subs'[pend.s].got = log[pend.p]
+  /\ (exists /\ paused[pend.p]) => (r = "paused" \/ (r = "ok" /\ subs'[pend.s].st = "paused"))
 
 P_Unsub == log' = log /\ ro' = ro /\ exists' = exists /\ paused' = paused
 =============================================================================
